@@ -23,6 +23,7 @@ import (
 
 	jobSource "github.com/mimiro-io/datahub/internal/jobs/source"
 	"github.com/mimiro-io/datahub/internal/server"
+	"github.com/mimiro-io/datahub/internal/verifhook"
 )
 
 const defaultBatchSize = 10000
@@ -169,6 +170,7 @@ func (pipeline *FullSyncPipeline) sync(job *job, ctx context.Context) (int, erro
 	if pipeline.sink.GetConfig()["Type"] != "HttpDatasetSink" ||
 		(isDatasetSource && dss.LatestOnly) ||
 		pipeline.source.GetConfig()["Type"] == "MultiSource" {
+		verifhook.Point("pipeline.fullsync.ended", job.id)
 		err = runner.store.StoreObject(server.JobDataIndex, job.id, syncJobState)
 		if err != nil {
 			return entCnt, err
@@ -303,6 +305,7 @@ func (pipeline *IncrementalPipeline) sync(job *job, ctx context.Context) (int, e
 					}
 				}
 
+				verifhook.Point("pipeline.sinkdone", job.id)
 				// store token if there is one
 				if continuationToken.GetToken() != "" {
 					syncJobState.ContinuationToken, err = continuationToken.Encode()
